@@ -49,6 +49,11 @@ def extra_checks(ft, tier, seed):
                                "reachability of __spec_class_init__/repr/eq",
                                "3 class bodies (plain; user-written __init__/__repr__/__eq__/colliding helper names; singular-name collision): class __dict__ "
                                "before / after decoration / after first use of every helper"))
+    r5 = harness.run_json("bounded/findings_r5.py", ["subclass-singular-collision"])
+    if r5.get("reproduces"):
+        out.append({"name": "finding.subclass-singular-collision", "status": "known", "kind": "known finding (open)", "what": r5["witness"]})
+    elif "error" in r5:
+        out.append({"name": "finding.subclass-singular-collision", "status": "error", "detail": r5["error"]})
     return out
 
 
